@@ -22,6 +22,7 @@ const (
 	SBV64
 	SFP64
 	SStr
+	SInt // mathematical integers: auxiliary terms of the string models only
 )
 
 func (s Sort) String() string {
@@ -40,6 +41,8 @@ func (s Sort) String() string {
 		return "(_ FloatingPoint 11 53)"
 	case SStr:
 		return "String"
+	case SInt:
+		return "Int"
 	}
 	return "?"
 }
